@@ -25,6 +25,14 @@ CHECKS = {
             "1e-13 SciPy reference. The ODE layer is sampling.",
             "Trusts SciPy DOP853 at 1e-13 as reference and its RK45/DOP853 as calibration of the tolerance multiple; order criterion p-0.5 on the finest halvings.",
             "DESIGN.md §4 C02"),
+    "C03": ("exploration",
+            "Hypothesis-generated arcs and library-corrected orbits with differential oracles: Richardson finite differences of the library's own flow, SciPy/SymPy variational reference, canonical-momentum symplectic algebra, flow equivariance, conditioning-aware spectrum comparison",
+            "Generated (mu to 1e-9, states, spans, fixed 4/6/8 and adaptive 5/8) through _compute_stm: Phi equals the Richardson finite-difference derivative of the library's own flow "
+            "(STM trajectory and System.propagate end states from perturbed starts), equals the oracle variational flow at tf and at an intermediate PHI row, is symplectic in canonical "
+            "momenta (M^T J M = J, det 1, palindromic characteristic polynomial), maps f(x0) to f(x(tf)); for corrected halo/Lyapunov orbits the monodromy equals the oracle monodromy, "
+            "maps the velocity vector to itself up to the closure error, and eigenvalues / stability indices equal those of the oracle's reciprocal pairs.",
+            "Arcs closer than 0.05 to a primary or with ||Phi|| > 1e6 are classified and skipped; backward STMs are not asserted here (C12); tolerances are formulas of the measured trajectory error, ||Phi||, r_min and step count.",
+            "DESIGN.md §4 C03"),
     "C04": ("exploration",
             "property-based testing (Hypothesis) over mass ratios with mpmath/SymPy reference model; catalogue enumerated exhaustively",
             "Mass ratios log-uniform down to 1e-9, every catalogue pair through System.from_bodies (exhaustive) and edge values derived from constants in the code, "
@@ -51,6 +59,14 @@ CHECKS = {
             "repetitions x omp/workqueue layers x concurrent Python callers must give bit-identical arrays equal to the exact result.",
             "Operations and schedules are sampled (degree <= 5 quick / <= 8 thorough). The harness controls thread count, chunking, layer and repetition, not instruction interleavings: no discrepancy over N runs is evidence of race freedom, not proof.",
             "DESIGN.md §4 C06"),
+    "C07": ("exploration",
+            "property-based testing (Hypothesis) over (mu, point, degree, ray directions) with a multi-precision power-series (Taylor-arithmetic) reference of the exact CR3BP energy and accelerations along rays through the library's own local-to-synodic map",
+            "mu log-uniform to 1e-9 plus catalogue and edge values x L1..L5 x N 2..8 (quick) / 2..10 (thorough) x generic directions, through the builders, the pipeline and the public "
+            "route: every Taylor coefficient of the value (d <= N) and of the acceleration (d <= N-1) along the ray is compared with the exact expansion at rounding-level "
+            "tolerances (equivalent to the O(r^(N+1)) / O(r^N) statement and not limited by the rounding floor); in addition the literal 8-rung radius ladder with a rigorous "
+            "Legendre remainder bound, guarded slope and add-a-degree rules; library evaluator vs own evaluator.",
+            "Trusts mpmath; local coordinates are defined by the library's own map measured as affine; both time directions of the Coriolis term accepted (L3 uses the reversed one, Note N-1); slope rules asserted only where the exact remainder is asymptotic.",
+            "DESIGN.md §4 C07"),
     "C10": ("exploration",
             "property-based testing (Hypothesis) against reference flows of the unwrapped field at signed times; reject-or-correct oracle on generated descending / non-uniform / zero-span grids",
             "Generated (CR3BP kernel and System.propagate, 42-D variational with selective flip, polynomial Hamiltonian, autonomous and time-dependent user rhs) x method "
